@@ -209,7 +209,10 @@ func golubKahanSVD(inSitu *InSitu, epsilon float64) (Matrix, Matrix, Matrix, err
   computeU := householderBidiagonalization.ComputeU{inSitu.U != nil}
   computeV := householderBidiagonalization.ComputeV{inSitu.V != nil}
 
-  H, U, V, _ := householderBidiagonalization.Run(A, computeU, computeV, &inSitu.HouseholderBidiagonalization)
+  H, U, V, err := householderBidiagonalization.Run(A, computeU, computeV, &inSitu.HouseholderBidiagonalization)
+  if err != nil {
+    return nil, nil, nil, err
+  }
   B := H.Slice(0,n,0,n)
   // the rotations from the left are accumulated in U^T
   if U != nil {
